@@ -147,7 +147,7 @@ func hooksC03() Hooks {
 				}
 			}
 			// "any maxCount of at least 1": also the ones that mean "everything"
-			offs := []int64{klevdb.OffsetOldest, r.Obs.I64(0, r.M.Next)}
+			offs := []int64{klevdb.OffsetOldest, r.Obs.I64(0, r.M.Next), r.M.Next + 1000, math.MaxInt64}
 			if n := len(r.M.Live); n > 0 {
 				offs = append(offs, r.M.Live[r.Obs.Intn(n)].Off)
 			}
@@ -206,7 +206,13 @@ func hooksC04() Hooks {
 			}
 			r.noteState()
 			m := r.M
+			offs := make([]int64, 0, m.Next+5)
 			for off := int64(0); off <= m.Next+2; off++ {
+				offs = append(offs, off)
+			}
+			// far beyond what was ever assigned
+			offs = append(offs, m.Next+1000+r.Obs.I64(0, 1000), math.MaxInt64-1, math.MaxInt64)
+			for _, off := range offs {
 				got, err := getG(r.L, off)
 				want, live := m.Get(off)
 				switch {
